@@ -23,6 +23,7 @@ pub enum H {
     WSender(WeakSender<Fire>),
     WCaller(WeakCaller<Ask>),
     JoinFut(JoinFut),
+    SendFut { f: std::pin::Pin<Box<dyn Future<Output = hannibal::error::Result<()>> + Send>>, c0: u16, i0: u16 },
 }
 
 impl H {
@@ -37,6 +38,7 @@ impl H {
             H::WSender(_) => Hk::WeakSender,
             H::WCaller(_) => Hk::WeakCaller,
             H::JoinFut(_) => Hk::Join,
+            H::SendFut { .. } => Hk::Fut,
         }
     }
 }
@@ -78,8 +80,13 @@ impl Drop for Slot {
         self.release_logged();
         if hk.strong() {
             let h = self.take();
+            let parked = if let H::SendFut { c0, i0, .. } = &h { Some((*c0, *i0)) } else { None };
             drop(h);
             log::log(K::RefGone { tag: self.tag, hk, c: self.c });
+            if let Some((c0, i0)) = parked {
+                // a parked submission dropped before it completed is a cancelled operation
+                log::log(K::OpE { c: c0, i: i0, res: Res::Cancelled });
+            }
         }
     }
 }
@@ -576,6 +583,66 @@ async fn exec_op(env: &Arc<Env>, c: u16, i: u16, op: Op, slots: &mut Vec<Slot>) 
                 }
             } else {
                 push(slots, Slot::empty());
+                Res::Skipped
+            };
+            end(c, i, r);
+        }
+        Op::SendPark { slot, script, polls } => {
+            let uid = log::uid();
+            let tag = tag_of(slots, slot);
+            let fut = match slots.get(slot as usize).map(|s| &s.h) {
+                Some(H::Sender(a)) => {
+                    let steps = resolve(&script, slots);
+                    begin(c, i, OpK::Send, Hk::Sender, Path::Waiting, tag, uid, slot, 1 + polls as u64);
+                    Some(a.send(Fire { uid, script: steps }))
+                }
+                _ => None,
+            };
+            match fut {
+                Some(mut f) => {
+                    log_script_refs(&script, slots, c);
+                    let mut done = None;
+                    for _ in 0..polls {
+                        match futures::poll!(&mut f) {
+                            std::task::Poll::Ready(v) => {
+                                done = Some(v);
+                                break;
+                            }
+                            std::task::Poll::Pending => rt::yield_now().await,
+                        }
+                    }
+                    match done {
+                        Some(r) => {
+                            push(slots, Slot::empty());
+                            end(c, i, res_of(r));
+                        }
+                        None => {
+                            // the operation stays open: its end is logged when the future completes or is dropped
+                            push(slots, Slot::mk(H::SendFut { f, c0: c, i0: i }, tag, c));
+                        }
+                    }
+                }
+                None => {
+                    begin(c, i, OpK::Send, hk_of(slots, slot), Path::Waiting, tag, uid, slot, 1 + polls as u64);
+                    push(slots, Slot::empty());
+                    end(c, i, Res::Skipped);
+                }
+            }
+        }
+        Op::AwaitParked { slot } => {
+            let (tag, hk) = (tag_of(slots, slot), hk_of(slots, slot));
+            begin(c, i, OpK::AwaitParked, hk, Path::NA, tag, 0, slot, 0);
+            let r = if hk == Hk::Fut {
+                let H::SendFut { f, c0, i0 } = slots[slot as usize].take() else { unreachable!() };
+                let r = watched(c0, i0, f, None).await;
+                end(c0, i0, match r {
+                    Some(r) => res_of(r),
+                    None => Res::Cancelled,
+                });
+                log::log(K::Ref { tag, hk: Hk::Fut, delta: -1, c });
+                log::log(K::RefGone { tag, hk: Hk::Fut, c });
+                Res::Ok
+            } else {
                 Res::Skipped
             };
             end(c, i, r);
